@@ -348,8 +348,16 @@ impl Session {
             let mut stepped = 0u64;
             if gate::mode() == gate::Mode::Gated {
                 let t0 = Instant::now();
+                // A drop that quiesces the store cannot return while its worker is parked with work
+                // pending.  Give it time to return on its own (a bounded wait inside drop would show
+                // here) before the worker is stepped; an idle worker needs no such grace.
+                let pending = wid.as_ref().map(|w| {
+                    let at = gate::parked(w).map(|p| p.0).unwrap_or_default();
+                    !(at == "recv" && self.queue_len(w) == 0)
+                }).unwrap_or(false);
+                let grace = if pending { Duration::from_millis(400) } else { Duration::from_millis(3) };
                 while !h.is_finished() {
-                    if t0.elapsed() < Duration::from_millis(3) {
+                    if t0.elapsed() < grace {
                         std::thread::sleep(Duration::from_micros(100));
                         continue;
                     }
